@@ -37,6 +37,11 @@ func main() {
 		fmt.Fprintln(os.Stderr, "c18: watchdog: 120 s exceeded, aborting")
 		os.Exit(3)
 	})
+	// the "silent" logger of the code under test still prints error-level lines (with stack traces) on stdout;
+	// this driver writes nothing on stdout itself, so drop them
+	if devnull, err := os.OpenFile(os.DevNull, os.O_WRONLY, 0); err == nil {
+		os.Stdout = devnull
+	}
 	checkIPTable()
 
 	r := hx.NewRng(hx.SeedFromEnv()) // the only randomness source; all scripts are generated before anything runs
